@@ -56,6 +56,16 @@ CHECKS = {
    note="Known findings C08-F1 (second request to another slave while locked) and C08-F2 (W before AW) are excluded by "
         "region and replayed canonically. AXI4-full twins are covered through C09/C10/C11 families only.",
    tech="deterministic simulation, seeded five-channel schedule search, same-cycle handshake correlation + ordering history"),
+ "C11": dict(cat="fault_enumeration", ref="DESIGN.md 5.C11",
+   text="Fault-centric: real wishbone.Timeout / InterconnectShared(timeout) and AXILiteTimeout / AXILiteInterconnectShared("
+        "timeout) with timeouts 1..16; a slave goes silent at a literal cycle (sweep families enumerate EVERY cycle of a short "
+        "scenario for several t), unmapped addresses, answers in the very expiry cycle; forced terminations must carry the "
+        "error value, come not before t and within a bound, emit one error pulse, leave in-time answers intact (reference "
+        "data) and every master must finish afterwards. WaitTimer checked cycle-exactly. Enumeration of fault instants on "
+        "fixed scenarios, sampling elsewhere.",
+   note="Known findings: crossbars ignore timeout_cycles (C11-F1/F1b), accepted-but-unanswered AXI requests never time out "
+        "(C11-F2). Slaves answering later than the timeout are outside the property's fault model (only the expiry cycle).",
+   tech="deterministic simulation with slave-silence fault injection enumerated over every cycle, bounded-termination oracle"),
  "C16": dict(cat="exploration", ref="DESIGN.md 5.C16",
    text="Seeded search over header definitions, data widths, packet lists, valid/ready schedules and selector changes for "
         "Packetizer, Depacketizer, their round trip, PacketFIFO, Arbiter and Dispatcher on the real simulator; outputs "
